@@ -65,7 +65,8 @@ def correct2(k0a: bool, k0b: bool, k0c: bool, a0: bool, mu0: bool, m0: str,
     pre: True
     post: _
     """
-    tick()
+    if tick():
+        return True
     k0 = int(PART) if PART else bits(k0a, k0b, k0c)
     k1 = bits(k1a, k1b, k1c)
     if excluded("C02.correct2", k0=k0, k1=k1, a0=a0, a1=a1, mu0=mu0, mu1=mu1, m0=m0, m1=m1):
@@ -81,7 +82,8 @@ def correct3(k1a: bool, k1b: bool, k1c: bool, k2a: bool, k2b: bool, k2c: bool,
     pre: True
     post: _
     """
-    tick()
+    if tick():
+        return True
     k0 = int(PART) if PART else 0
     return _run([k0, bits(k1a, k1b, k1c), bits(k2a, k2b, k2c)], [a0, a1, a2], [mu0, mu1, mu2],
                 ["m0", "m1", "m2"], sup_instr, False, False)
@@ -94,7 +96,8 @@ def correct_reach(a0: bool, a1: bool, mu1: bool) -> bool:
     pre: True
     post: _
     """
-    tick()
+    if tick():
+        return True
     r = Report()
     set_correct(report=r, activate=a0)
     kw = {"muted": True} if mu1 else {}
